@@ -34,6 +34,8 @@ U_all   == Scenarios(Cfgs_small, {0}, {FALSE})
 U_seq   == Scenarios(Cfgs_small, {0}, {TRUE})
 U_dry   == Scenarios(Cfgs_dry, {0}, BOOLEAN)
 U_fault == {s \in Scenarios({Cfg("always", -1, FALSE)}, 0..FailUpTo, BOOLEAN) : s.tree0 = Tr(FS(<<0>>, "644"), Absent, FS(<<0>>, "644"), Absent) /\ Len(s.series[1].fps) = 2 /\ ~s.series[2].rev}
+\* a slice of U_all for runs with -coverage (action counts; tools/check.py C06 --coverage)
+U_cov   == {s \in U_all : s.tree0 = Tr(FS(<<1>>, "644"), FS(<<0>>, "644"), FS(<<1>>, "644"), Absent) /\ s.cfg.backup = "always"}
 
 MCInit == \E s \in Universe : InitWith(s)
 MCNext == Step
